@@ -1,7 +1,8 @@
-\* layer 1 = the code: the statement must hold (lib/stalewriter.py also runs CheckOutsideLock = TRUE and expects a violation)
+\* lib/stalewriter.py: layer 1 (both deviations FALSE) must satisfy PropNoStale; each named deviation must violate it
 SPECIFICATION Spec
 CONSTANTS
   CheckOutsideLock = FALSE
-  WithHolder = {TRUE, FALSE}
+  InitUnderReadLock = FALSE
+  Modes = {"plain", "holder", "stall"}
 INVARIANTS TypeOK Settled PropNoStale EmitScheds
 CHECK_DEADLOCK FALSE
